@@ -325,6 +325,10 @@ int main() {{
     n.SetReferenceAbund(ref, 0);
     int rc = n.Renorm(ab);
     FILE *o = fopen("out.bin", "wb"); fwrite(ab, sizeof(double), NEQUATIONS, o);
+    /* the same object renormalises a second state against the same stored reference (no SetReferenceAbund in between) */
+    double ab3[NEQUATIONS] = {{ {abarr} }};
+    rc |= n.Renorm(ab3);
+    fwrite(ab3, sizeof(double), NEQUATIONS, o);
     /* opt 1: the reference is given as a species abundance vector (absolute densities) */
     double ab2[NEQUATIONS] = {{ {abarr} }};
     double refsp[NEQUATIONS] = {{ {refsparr} }};
@@ -345,8 +349,11 @@ int main() {{
         pr = subprocess.run(["./drv"], cwd=str(d), capture_output=True, timeout=120)
         if pr.returncode != 0:
             return 1, [(f"C16:renorm-returns-failure:{backend}", f"{'+'.join(species)} [{backend}]: Renorm returned {pr.returncode}", case)]
-        both = struct.unpack(f"<{2*neq}d", (d / "out.bin").read_bytes())
-        got, got2 = both[:neq], both[neq:]
+        both = struct.unpack(f"<{3*neq}d", (d / "out.bin").read_bytes())
+        got, got3, got2 = both[:neq], both[neq : 2 * neq], both[2 * neq :]
+        for sl, e in exp.items():
+            if abs(got3[sl] - e) > 1e-9 * max(abs(e), 1e-300):
+                return 1, [(f"C16:compiled-renorm-differs:{backend}:second-call", f"{'+'.join(species)} [{backend}]: a second Renorm on the same object (same reference, same input state) gives ab[{sl}] = {got3[sl]!r}, the first call and the exact solution give {e!r}", case)]
         for sl, e in exp.items():
             if abs(got[sl] - e) > 1e-9 * max(abs(e), 1e-300):
                 return 1, [(f"C16:compiled-renorm-differs:{backend}:opt0", f"{'+'.join(species)} [{backend}]: SetReferenceAbund(ref, 0) with un-normalised element abundances, then Renorm: ab[{sl}] = {got[sl]!r}, exact solution for ref/ref_H {e!r}", case)]
